@@ -8,6 +8,9 @@ Extracted (everything table-like the C11 / C19-deps models depend on):
   * structural fingerprints of the two bounds guards (F11: trailing backslash in lexWord,
     F12: opcode is the last byte in DependencyInfoParser::parse) as booleans the model branches on
   * DependencyInfoParser: the Opcode enum (name -> value) and the diagnostic strings of both parsers
+  * lib/BuildSystem/ShellCommand.cpp, processDependencyInfoDiscoveredDependencies()::DepsActions::actOnInput: does the node key
+    of an input record get the command's working directory in front of a relative path (as the Makefile-style
+    actOnRuleDependency does) or is the operand used as it is (= relative to the process's current directory)
 Fails closed (ExtractError) on any shape it does not understand.
 """
 import re
@@ -152,6 +155,28 @@ def depinfo():
     return rel, enum_text + body, dict(ops=ops, f12_guard=f12_guard, msgs=msgs)
 
 
+def shellcommand():
+    rel = "lib/BuildSystem/ShellCommand.cpp"
+    src = strip_comments(read(rel))
+    body = function_body(src, r"bool\s+ShellCommand::processDependencyInfoDiscoveredDependencies\s*\([^)]*\)")
+    m = re.search(r"virtual\s+void\s+actOnInput\s*\(\s*StringRef\s+path\s*\)\s*override\s*\{", body)
+    if not m:
+        raise ExtractError("processDependencyInfoDiscoveredDependencies: actOnInput not found")
+    act, _ = find_block(body, m.end() - 1)
+    norm = re.sub(r"\s+", "", act)
+    tail = ("ti.discoveredDependency(BuildKey::makeNode(path).toData());"
+            "system.getDelegate().commandFoundDiscoveredDependency(command,path,DiscoveredDependencyKind::Input);")
+    resolve = ("SmallString<PATH_MAX>absPath;if(!llvm::sys::path::is_absolute(path)){absPath=StringRef(command->workingDirectory);"
+               "llvm::sys::path::append(absPath,path);llvm::sys::fs::make_absolute(absPath);path=absPath;}")
+    if norm == tail:
+        resolved = False
+    elif norm == resolve + tail:
+        resolved = True
+    else:
+        raise ExtractError("processDependencyInfoDiscoveredDependencies::actOnInput has an unexpected shape: %s" % norm[:200])
+    return rel, act, dict(di_input_resolved=resolved)
+
+
 def lb(b):
     return "true" if b else "false"
 
@@ -159,6 +184,7 @@ def lb(b):
 def run():
     rel1, used1, mk = makefile()
     rel2, used2, di = depinfo()
+    rel3, used3, sh = shellcommand()
     if mk["comment_stop"] != 10:
         raise ExtractError("comment loop compares with %d, not with newline" % mk["comment_stop"])
     L = ["namespace LLBuild.Generated", "",
@@ -183,8 +209,11 @@ def run():
     L += ["",
           "/-- `DependencyInfoParser::parse`: `if (cur == end) { error; break; }` present after the opcode read (false = defect F12) -/",
           "def diOperandGuard : Bool := %s" % lb(di["f12_guard"]), "",
+          "/-- ShellCommand.cpp, dependency-info `actOnInput`: a relative operand is appended to the command's working directory",
+          "before it becomes a node key (false = the operand is the key as it is, i.e. relative to the process's directory) -/",
+          "def shDepInfoInputResolved : Bool := %s" % lb(sh["di_input_resolved"]), "",
           "end LLBuild.Generated"]
-    return write_generated("DepsTables", "\n".join(L) + "\n", [(rel1, used1), (rel2, used2)])
+    return write_generated("DepsTables", "\n".join(L) + "\n", [(rel1, used1), (rel2, used2), (rel3, used3)])
 
 
 if __name__ == "__main__":
